@@ -125,8 +125,12 @@ def run(prop, tier):
     res.samples = ['world clang-O3, PDU at 16-byte boundary + 3: ' + s for s in total.samples[:3]]
     general = []
     for (op, key), e in sorted(per_key.items()):
-        if e['configs'] >= allcfg:
+        if e['configs'] >= allcfg and 'alignof' not in key:
             general.append('%s %s' % (op, key))      # same failure everywhere: not a placement dependence, it is %s's business
+            continue
+        if 'alignof' in key:
+            # a header type that demands alignment: placing the PDU at an arbitrary byte offset is no longer valid for that type
+            res.viol[('C15', 'type demands alignment: %s' % key)] = {'count': len(e['configs']), 'case': '%s|%s|%d|%s' % (op, sorted(e['configs'])[0][0], sorted(e['configs'])[0][1], e['info']['case']), 'detail': e['info']['detail'], 'tag': ''}
             continue
         cfgs = sorted(e['configs'])
         desc = '%d of %d configurations, e.g. %s at offset %d' % (len(cfgs), len(allcfg), cfgs[0][0], cfgs[0][1])
@@ -142,9 +146,22 @@ def run(prop, tier):
         key = 'align:%s:%s:%s' % (fn, typ, kind)
         res.viol[('C15', key)] = {'count': len(offsets), 'case': 'align|%s' % fn,
                                   'detail': '%s of %s through a pointer that is only byte aligned, in %s (PDU offsets %s)' % (kind, typ, fn, sorted(offsets)), 'tag': ''}
+    # every load and store of the library against the extent of the object it was given, at all 8 address residues (the
+    # instrumented pass of C03): an access that reaches outside the PDU at some placements only is a placement dependence
+    from . import c16
+    for opt in ('-O0', '-O2'):
+        xe = c16.build(os.path.join(b, 'instr'), opt)
+        p = subprocess.run([xe, '--extent'], stdout=subprocess.PIPE, stderr=subprocess.PIPE, text=True)
+        r2 = core.Result()
+        if p.returncode != 0 or not r2.parse(p.stdout, 'instrumented' + opt):
+            core.die_infra('instrumented extent pass failed: ' + p.stderr[-500:])
+        for (op, key), info in r2.viol.items():
+            res.viol[('C15', 'access outside the object: ' + key)] = dict(info, tag='instrumented' + opt)
+        res.counters['cases'] = res.counters.get('cases', 0) + r2.counters.get('cases', 0)
+        res.counters['transitions'] = res.counters.get('transitions', 0) + r2.counters.get('transitions', 0)
     res.counters['states'] = res.counters.get('states', 0)
     core.finish('C15', tier, t0, res,
-                rule='configurations = {gcc,clang} x {-O0,-O1,-O2,-O3,-Os} x PDU start at a 16-byte boundary + {0..7} = 80, each running the %s lattices (thorough: C01 and C02 with the quick lattice at offsets 0 and 3 and the lite lattice elsewhere) of C01 C02 C04 C05 C06 C07 C08 C09 C10 C12 C17 against the reference model (so all configurations agree with each other); transcripts compared between worlds per offset; a failure present in all configurations is not a placement dependence (it is reported by its own property); plus clang -O0/-O1/-Os -fsanitize=alignment worlds over the same cases x 8 offsets, every misaligned-access report keyed by function/type/direction' % ltier,
+                rule='configurations = {gcc,clang} x {-O0,-O1,-O2,-O3,-Os} x PDU start at a 16-byte boundary + {0..7} = 80, each running the %s lattices (thorough: C01 and C02 with the quick lattice at offsets 0 and 3 and the lite lattice elsewhere) of C01 C02 C04 C05 C06 C07 C08 C09 C10 C12 C17 against the reference model (so all configurations agree with each other); transcripts compared between worlds per offset; a failure present in all configurations is not a placement dependence (it is reported by its own property); plus clang -O0/-O1/-Os -fsanitize=alignment worlds over the same cases x 8 offsets, every misaligned-access report keyed by function/type/direction; plus the instrumented extent pass (every load/store of every accessor checked against the header extent at all 8 address residues, -O0 and -O2); a header type whose alignment requirement is not 1 is reported' % ltier,
                 bounds={'worlds': [w[0] + w[1] for w in WORLDS], 'offsets': offs, 'lattice': ltier, 'explorer_runs': len(jobs), 'transcript_groups_compared': ntr},
                 assumptions=['only the PDU moves; arrays owned by the caller (VSS element arrays, result objects) stay naturally aligned', 'x86-64 host: a misaligned access does not trap here, which is why the alignment-sanitizer world is part of the check'],
                 recipe={'engine': 'c15'}, extra_cov={'failures_identical_in_all_configurations': general[:20], 'alignment_reports': len(align)})
